@@ -213,6 +213,13 @@ func (c *Ctx) lexTables() (*lexTables, error) {
 				kind = "two"
 			case isString(pt) && res.Len() == 2 && isTok(res.At(0).Type()) && len(lt.Keywords) == 0:
 				kind = "kw"
+			case isRune(pt) && res.Len() == 2 && len(lt.TwoRune) == 0:
+				// (struct{second rune; token}, ok)
+				if st, ok := res.At(0).Type().Underlying().(*types.Struct); ok && st.NumFields() == 2 {
+					kind = "two-struct"
+				} else {
+					continue
+				}
 			default:
 				continue
 			}
@@ -254,6 +261,35 @@ func (c *Ctx) lexTables() (*lexTables, error) {
 							continue
 						}
 						lt.OneRune[string(rune(k))] = constNameOf(toks, t)
+					case "two-struct":
+						k, _ := constant.Int64Val(v)
+						cl, isCL := stripParens(rs.Results[0]).(*ast.CompositeLit)
+						if !isCL || len(cl.Elts) != 2 {
+							okTab = false
+							continue
+						}
+						var r2, t int64
+						gotR, gotT := false, false
+						for _, el := range cl.Elts {
+							val := el
+							if kv, isKV := el.(*ast.KeyValueExpr); isKV {
+								val = kv.Value
+							}
+							x, okX := c.intConst(val)
+							if !okX {
+								continue
+							}
+							if isTok(c.typeOf(val)) {
+								t, gotT = x, true
+							} else {
+								r2, gotR = x, true
+							}
+						}
+						if !gotR || !gotT {
+							okTab = false
+							continue
+						}
+						lt.TwoRune[string(rune(k))+string(rune(r2))] = constNameOf(toks, t)
 					case "two":
 						k, _ := constant.Int64Val(v)
 						r2, ok2 := c.intConst(rs.Results[0])
